@@ -215,8 +215,11 @@ def run_kernel(job):
 
 
 def jobs(tier, seed):
-    N = 4 if tier == 'quick' else 5
-    out = [dict(kind='kernel', shape=[n, m], weight=n * m) for n in range(N + 1) for m in range(N + 1)]
+    shapes = [(n, m) for n in range(5) for m in range(5)]
+    if tier != 'quick':
+        # 5x5 / 5x4 summaries are beyond z3's 60 s cap (measured: unknown / summary not exhausted)
+        shapes += [(5, k) for k in range(4)] + [(k, 5) for k in range(4)]
+    out = [dict(kind='kernel', shape=[n, m], weight=n * m) for n, m in shapes]
     out.append(dict(kind='crosshair', weight=100, timeout=150 if tier == 'quick' else 600))
     # leaf pairs of every kind combination (symbolic payloads, lengths up to 3; "" included)
     kinds = [('i', 1), ('i', 2), ('i', 3), ('s', 0), ('s', 1), ('s', 2), ('s', 3), ('b', True), ('b', False), ('n',)]
@@ -251,8 +254,8 @@ REGIONS = dict(mset_duplicates=lambda w, f: th.matcher_collapse_region(w))
 
 
 def bounds_text(tier):
-    N = 4 if tier == 'quick' else 5
-    return (f"kernel: all string pairs of lengths 0..{N} x 0..{N} (every character symbolic, any alphabet); leaf pairs: 10 kinds x 10 "
+    extra = '' if tier == 'quick' else ' plus 5 x 0..3 and 0..3 x 5'
+    return (f"kernel: all string pairs of lengths 0..4 x 0..4{extra} (every character symbolic, any alphabet); leaf pairs: 10 kinds x 10 "
             "kinds (int 1-3 digits, str 0-3 letters, true, false, null); mixed-kind containers; trees: " + th.tree_bounds_text(tier))
 
 
